@@ -163,7 +163,9 @@ func (r *rules) Enabled() []seqx.Event {
 	}
 	for _, k := range r.liveK() {
 		for m := range r.mods {
-			ev = append(ev, seqx.Ev("Mod", int64(k), int64(m)))
+			x := seqx.Ev("Mod", int64(k), int64(m))
+			x.N = fmt.Sprintf("Mod(s%d,%s)", k, r.mods[m].name)
+			ev = append(ev, x)
 		}
 	}
 	for k := 1; k <= len(r.EstUP); k++ {
